@@ -394,7 +394,20 @@ def rule_OP(run: Run) -> RuleResult:
         res.add(f"labrea.collections.{fname}:arguments in order through {form.split('.apply')[1]}", ok, cm.relpath, fi.node.lineno, f"{shown}", nec)
     it_cls = repo.cls("Iter")
     init = it_cls.methods.get("__init__")
-    ok = init is not None and "self.evaluatables = tuple((Evaluatable.ensure(e) for e in evaluatables))" in ast.unparse(init)
+    ok = init is not None
+    if ok:
+        # every argument is kept, in order, wrapped in Value when it is not an evaluatable already
+        ips_ = [p for p in analyse_function(Ctx(repo), it_cls.module, init, cls=it_cls) if p.status == "ret"]
+        ok = bool(ips_)
+        for p in ips_:
+            st = [e for e in p.events if e.kind == "store" and len(e.args) == 2 and e.args[0].key() == "self" and e.args[1].key() == Const("evaluatables").key()]
+            if len(st) != 1 or st[0].target is None:
+                ok = False
+                continue
+            k = st[0].target.key()
+            if k not in ("Coll(Child(*evaluatables[*]))", "Coll(New(Value;value=Child(*evaluatables[*])))", "Child(*evaluatables)", "Seq[]") or "reordered:" in k:
+                ok = False
+        ok = ok and not any(astu.short_name(c) in REORDER for c in astu.calls_in(init))
     res.add("labrea.iterable.Iter.__init__:keeps the arguments in order", ok, it_cls.module.relpath, init.lineno if init else 0, "", nec)
     # Map: keys and values of a combination come from the same mapping, in the same order
     mp = repo.cls("Map")
